@@ -85,7 +85,9 @@ def k1_shapes(tier):
         if tier == 'quick':
             scheds = scheds if n == 2 else [s for s in scheds if 'h' in s][:3]
         elif n > 3:
-            scheds = scheds[::4]
+            scheds = scheds[::9]
+        elif n == 3:
+            scheds = scheds[::2]          # sized: the full product ran for more than an hour on 10 cores
         for i, s in enumerate(scheds):
             out.append({'blocks': blocks, 'flush': list(s) + ['n'], 'depth': depth, 'new': new,
                         'reopen': i % 2 == 0, 'restart_before': i % 3 == 1})
